@@ -31,20 +31,26 @@ PP(k, v) == [k |-> k, v |-> v]
 SP(k, v) == [k |-> k, v |-> v, doc |-> VUnspec]
 
 DivZero == ABin("/", AInt(1), ABin("-", AInt(1), AInt(1)))
+DivFZero == ABin("/", AInt(1), ABin("-", AFlt(1, 1), AFlt(1, 1)))                    \* an integer over a computed float zero
+DivFZero2 == ABin("/", AInt(3), ACall("float", <<AStr(<<48>>)>>))
+KeyOnKey == ABin("+", AKey, AStr(<<98>>))                                             \* `key` inside a KEY expression is the empty key
 BadDist == ACall("l2_distance", <<ACall("list", <<AInt(1), AInt(2)>>), ACall("list", <<AInt(1)>>)>>)
 
 KeyPool == { AStr(k1), AStr(k2), AInt(7), ABin("+", AStr(<<107>>), AStr(<<51>>)), ACall("upper", <<AStr(k4)>>),
-             ACall("lower", <<AStr(<<75, 49>>)>>), DivZero }
+             ACall("lower", <<AStr(<<75, 49>>)>>), DivZero, KeyOnKey }
 ValPool == { AStr(<<118, 49>>), AInt(5), ABin("+", AStr(<<118, 95>>), AKey), ACall("upper", <<ABin("+", AStr(<<118>>), AKey)>>),
-             ACall("str", <<ACall("strlen", <<AKey>>)>>), BadDist, AFlt(3, 1) }
-SmallKeys == { AStr(k1), ACall("lower", <<AStr(<<75, 49>>)>>), AStr(k2) }
-SmallVals == { AStr(<<118, 49>>), ABin("+", AStr(<<118, 95>>), AKey), BadDist }
+             ACall("str", <<ACall("strlen", <<AKey>>)>>), BadDist, AFlt(3, 1), DivFZero, DivFZero2 }
+SmallKeys == { AStr(k1), ACall("lower", <<AStr(<<75, 49>>)>>), AStr(k2), KeyOnKey }
+SmallVals == { AStr(<<118, 49>>), ABin("+", AStr(<<118, 95>>), AKey), BadDist, DivFZero }
 
 PairSeqs == { <<PP(k, v)>> : k \in KeyPool, v \in ValPool }
             \cup (IF MaxPairs >= 2 THEN { <<PP(a, b), PP(c, d)>> : a \in KeyPool, b \in ValPool, c \in KeyPool, d \in SmallVals } ELSE {})
             \cup (IF MaxPairs >= 3 THEN { <<PP(a, b), PP(c, d), PP(e, f)>> : a \in SmallKeys, b \in SmallVals, c \in SmallKeys, d \in SmallVals, e \in SmallKeys, f \in SmallVals } ELSE {})
-KeySeqs == { <<a>> : a \in KeyPool } \cup { <<a, b>> : a \in KeyPool, b \in KeyPool }
-           \cup (IF MaxPairs >= 3 THEN { <<a, b, c>> : a \in SmallKeys, b \in KeyPool, c \in SmallKeys } ELSE {})
+\* (REMOVE refuses `key`: its key expressions are taken from the pools without KeyOnKey)
+RKeyPool == KeyPool \ {KeyOnKey}
+RSmallKeys == SmallKeys \ {KeyOnKey}
+KeySeqs == { <<a>> : a \in RKeyPool } \cup { <<a, b>> : a \in RKeyPool, b \in RKeyPool }
+           \cup (IF MaxPairs >= 3 THEN { <<a, b, c>> : a \in RSmallKeys, b \in RKeyPool, c \in RSmallKeys } ELSE {})
 
 PriorStores == { <<>>, <<SP(k1, <<111>>), SP(k3, <<111>>)>>, <<SP(<<55>>, <<111>>), SP(<<75, 52>>, <<111>>), SP(k1, <<111>>), SP(k2, <<111>>)>> }
 PollPatterns == { [polls |-> "", after |-> 0], [polls |-> "rb", after |-> 2], [polls |-> "br", after |-> 3], [polls |-> "b", after |-> 1] }
